@@ -12,6 +12,7 @@ pub mod c09;
 pub mod c10;
 pub mod c11;
 pub mod c12;
+pub mod c13;
 pub mod c17;
 pub mod c18;
 pub mod c19;
@@ -30,6 +31,7 @@ pub fn dispatch(ctx: &Ctx, replay: Option<String>) -> ! {
         "C10" => c10::run(ctx, replay),
         "C11" => c11::run(ctx, replay),
         "C12" => c12::run(ctx, replay),
+        "C13" => c13::run(ctx, replay),
         "C17" => c17::run(ctx, replay),
         "C18" => c18::run(ctx, replay),
         "C19" => c19::run(ctx, replay),
